@@ -168,6 +168,8 @@ def main(argv=None):
     unknowns = [o for o in obs if o['status'] == 'unknown']
     print('%s tier=%s: %d obligations, %d discharged (%s), %d unknown, %d violations, %d known, %d unconfirmed, %d task errors; %d scenarios, %d solver queries, %.1fs solver, %.1fs wall'
           % (a.prop, tier, len(obs), discharged, ', '.join('%s=%d' % kv for kv in sorted(counts.items())), len(unknowns), len(violations), len(known_hits), len(unconfirmed), len(errors), scen, queries, solver_s, wall))
+    slow = sorted([(r[2], t['name']) for t, r in zip(tasks, res) if r and len(r) > 2], reverse=True)[:5]
+    print('   slowest tasks: ' + '; '.join('%s %.1fs' % (n, x) for x, n in slow))
     for o in unknowns[:8]:
         print('   not discharged: %s (%s)' % (o['name'], o.get('detail')))
     if not a.no_evidence and not a.only:
